@@ -178,7 +178,7 @@ let print_json (j : json) : string =
   go j;
   Buffer.contents b
 
-let js (j : json) : string = "j" ^ hex (print_json j)
+let js (j : json) : string = "j" ^ hex (string_of_str (Model.print j))
 let json_of_tok (tok : string) : json = parse_json (unhex tok)
 
 let read_cases (path : string) : (string * string list) list =
